@@ -37,6 +37,19 @@ def run(c):
                     params["names"] = pe.PREFIX_NAMES
                 for spec in pe.timings(c.seed + i, n_random=1, n_pct=1 if c.thorough else 0):
                     cases.append((params, spec))
+    if not c.thorough:
+        # the quick tier stops at two operations: add the three-step histories that re-create a directory where one had been
+        nre = 0
+        for start in ("small", "deep"):
+            hs, r = pe.recreation_histories(start)
+            nre += len(hs)
+            for i, h in enumerate(hs):
+                params = dict(pe.START[start], ops=list(h), recursive=True, paced=True, spell="str")
+                if i % 3 == 1:
+                    params["names"] = pe.PREFIX_NAMES
+                for spec in pe.timings(c.seed + i, n_random=1, n_pct=0):
+                    cases.append((params, spec))
+        c.note(f"{nre} histories `take a directory away ; drain ; make one appear at or below its old path` from the K=3 graph")
     c.note(f"{nh} directory-shaping paced histories of <= {K} operations from the TLC graph of FsGen.tla")
     recs = pe.run_cases(c, cases, "TLC histories + probe rounds")
     pe.validate(c, "C02", recs)
